@@ -129,6 +129,17 @@ pub mod server;
 pub mod service;
 pub mod stream;
 
+/// Re-exports of crate-private items for the deterministic-simulation harness in /verif.
+/// Only compiled with the off-by-default `verif-hooks` feature.
+#[cfg(feature = "verif-hooks")]
+#[doc(hidden)]
+pub mod verif_hooks {
+    #[cfg(feature = "client")]
+    pub use crate::happy_eyeballs::{EyeballSet, HappyEyeballsError};
+    #[cfg(feature = "server")]
+    pub use crate::rewind::Rewind;
+}
+
 pub use body::Body;
 #[cfg(feature = "client")]
 pub use client::Client;
